@@ -553,11 +553,13 @@ class ISD(model.Document):
     # direction special semantics
     # https://www.w3.org/TR/ttml2/#style-attribute-direction-special-semantics
 
+    # (at this point, isd_element holds the specified values, as modified by any active animation step)
+
     if isinstance(element, model.Region) and \
-        (not element.has_style(styles.StyleProperties.Direction)) and \
-        element.get_style(styles.StyleProperties.WritingMode) in (styles.WritingModeType.lrtb, styles.WritingModeType.rltb):
+        (not isd_element.has_style(styles.StyleProperties.Direction)) and \
+        isd_element.get_style(styles.StyleProperties.WritingMode) in (styles.WritingModeType.lrtb, styles.WritingModeType.rltb):
       styles_to_be_computed.add(styles.StyleProperties.Direction)
-      direction = styles.DirectionType.ltr if element.get_style(styles.StyleProperties.WritingMode) == styles.WritingModeType.lrtb \
+      direction = styles.DirectionType.ltr if isd_element.get_style(styles.StyleProperties.WritingMode) == styles.WritingModeType.lrtb \
                   else styles.DirectionType.rtl
       isd_element.set_style(styles.StyleProperties.Direction, direction)
 
